@@ -1483,7 +1483,7 @@ func (c *BytecodeCompiler) compileNode(node ast.Node, valueIsIgnored bool) expre
 	case *ast.MacroBoundaryNode:
 		c.compileMacroBoundaryNode(node)
 	case *ast.UnhygienicNode:
-		c.compileUnhygienicExpressionNode(node, valueIsIgnored)
+		return c.compileUnhygienicExpressionNode(node, valueIsIgnored)
 	case *ast.IfExpressionNode:
 		return c.compileIfExpression(
 			false,
@@ -1999,13 +1999,14 @@ func (c *BytecodeCompiler) compileMacroBoundaryNode(node *ast.MacroBoundaryNode)
 	c.leaveScope(location.EndPos.Line)
 }
 
-func (c *BytecodeCompiler) compileUnhygienicExpressionNode(node *ast.UnhygienicNode, valueIsIgnored bool) {
+func (c *BytecodeCompiler) compileUnhygienicExpressionNode(node *ast.UnhygienicNode, valueIsIgnored bool) expressionResult {
 	prevUnhygienic := c.unhygienic
 	c.unhygienic = true
 
-	c.compileNode(node.Node, valueIsIgnored)
+	result := c.compileNode(node.Node, valueIsIgnored)
 
 	c.unhygienic = prevUnhygienic
+	return result
 }
 
 func (c *BytecodeCompiler) compileUnhygienicPatternNode(node *ast.UnhygienicNode, valType types.Type) {
